@@ -9,7 +9,7 @@
 (* mut = "none" for the real algorithm, other strings select deliberately broken variants  *)
 (* used as negative twins).                                                               *)
 (* out : row -> (col -> Int): 0 = not yet labelled, NANV = NaN, > 0 = label.              *)
-(* Values are integers, so numpy's isclose(rtol 1e-5, atol 1e-8) is equality.             *)
+(* Values are integers far apart, so the closeness test (double precision) is equality.   *)
 EXTENDS Components, Sequences, TLC
 
 RMax(a, b) == IF a > b THEN a ELSE b
@@ -25,8 +25,19 @@ Win(g, y, x) ==
      ELSE << <<y, l>>, <<u, x>>, <<d, x>>, <<y, r>> >>
 
 \* neighbor_matches: window positions (ascending) whose source value equals val
+\* the closeness test |src - val| <= atol + rtol*|val|, done in double precision (repo commit 8648623): on the
+\* integer-valued, well separated values of the domain it is equality.  The two negative twins are the defects
+\* the test had while it was evaluated in the raster's own integer dtype:
+\*   "absmin" - abs() of the dtype's minimum wraps to a negative number, the tolerance is negative and a cell
+\*              holding the minimum (played by the value 0 here) matches nothing, not even an equal neighbour
+\*   "wrap64" - a 64-bit difference wraps: seen from value 1 the value 0 looks close (the relation is not symmetric)
+CloseTo(g, val, src) ==
+  CASE g.mut = "absmin" -> src = val /\ val # 0
+    [] g.mut = "wrap64" -> src = val \/ (val = 1 /\ src = 0)
+    [] OTHER -> src = val
 NeighborMatches(g, win, val) ==
-  SelectSeq([j \in 1..Len(win) |-> j], LAMBDA j : g.v[win[j][1]][win[j][2]] = val)
+  SelectSeq([j \in 1..Len(win) |-> j],
+            LAMBDA j : g.v[win[j][1]][win[j][2]] # NANV /\ CloseTo(g, val, g.v[win[j][1]][win[j][2]]))
 
 \* area_window: snapshot of the labels under the window
 AreaWindow(out, win) == [j \in 1..Len(win) |-> out[win[j][1]][win[j][2]]]
